@@ -131,6 +131,9 @@ type nkOpts struct {
 	Capacity uint64
 	Driver   string // "" = leveldb in memory; "sim:<id>" = fault-injecting disk
 	Path     string
+	// Persistent puts the localstore on a private temp directory so that a
+	// restart finds its data again (the in-memory driver forgets on Close).
+	Persistent bool
 }
 
 // nkNode is one simulated node.
@@ -177,6 +180,9 @@ func (c *nkCluster) AddNode(o nkOpts) (*nkNode, error) {
 		return nil, err
 	}
 	n.State = st
+	if o.Persistent && o.Path == "" {
+		n.opts.Path = c.r.TempDir()
+	}
 	n.Net = c.Net.AddNode(n.Addr, aurora.NewModel().SetMode(aurora.FullNode))
 	if err := n.build(); err != nil {
 		return nil, err
